@@ -8,7 +8,7 @@ CONSTANTS
   ItemTypes <- EntOnly
   MaxOrphans = 0
   Kinds <- KindsAll
-  Tmo = {0, 2}
+  Tmo = {0}
   Horizon = 0
   AllowFaults = TRUE
   AdapterErrors = FALSE
